@@ -44,7 +44,14 @@ type Container struct {
 }
 
 func New(cfg config.Config) *Container {
-	return &Container{
+	c := &Container{
 		cfg: cfg,
 	}
+
+	// The getters build their objects lazily and without synchronisation. The whole graph is
+	// built here, before the container is shared between goroutines: afterwards the getters
+	// only read.
+	c.StoreService()
+
+	return c
 }
